@@ -22,7 +22,7 @@ LEVEL_NOTE = "Trusted: vlib/twins.py hand expander and vlib/model/refasm.py. Con
 DESIGN_REF = "DESIGN.md §3 C10"
 ASSUMPTIONS = ["labels defined in a branch / iteration are not referenced from outside it"]
 
-PROFILE = progen.Profile(incbin=False, ascii=False, reloc_ram=False, reloc_rom=False, scopes=True, scope_weight=3, loop_weight=5, if_weight=5, call_weight=2, max_stmts=12, max_depth=4)
+PROFILE = progen.Profile(text=True, incbin=False, ascii=False, reloc_ram=False, reloc_rom=False, scopes=True, scope_weight=3, loop_weight=5, if_weight=5, call_weight=2, max_stmts=12, max_depth=4)
 
 
 def selftest() -> None:
@@ -101,7 +101,8 @@ def enum_units(tier, seed):
     for body in ([{"k": "table", "f": "t1.tbl"}, tx("ab"), db(["id", "i_0"])],
                  [db(["id", "i_0"]), {"k": "if", "c": L(1), "t": [{"k": "table", "f": "t1.tbl"}, tx("a")], "e": None}, tx("b")],
                  [{"k": "if", "c": L(0), "t": [tx("a")], "e": [{"k": "table", "f": "t1.tbl"}]}, tx("ba")],
-                 [{"k": "for", "v": "i_1", "lo": L(0), "hi": L(2), "b": [{"k": "table", "f": "t1.tbl"}, tx("a")]}, tx("b")]):
+                 [{"k": "for", "v": "i_1", "lo": L(0), "hi": L(2), "b": [{"k": "table", "f": "t1.tbl"}, tx("a")]}, tx("b")],
+                 [tx("ab"), {"k": "table", "f": "t1.tbl"}, tx("ab")], [tx("a"), {"k": "if", "c": ["id", "i_0"], "t": [tx("b")], "e": [{"k": "table", "f": "t1.tbl"}]}, tx("ab")]):
         for hi in (1, 2, 3):
             cases.append({"rom": "low", "files": dict(tf), "ir": [{"k": "table", "f": "t0.tbl"}, org, tx("ab"), {"k": "for", "v": "i_0", "lo": L(0), "hi": L(hi), "b": body}, tx("ab"),
                                                                  {"k": "if", "c": L(1), "t": [tx("b")], "e": None}, db(L(0xEE))]})
